@@ -5,8 +5,10 @@
 //! counterexample against the normally compiled crate.
 #![allow(clippy::all)]
 #![allow(dead_code)]
+#![allow(unused_imports)]
 
 pub mod sym;
+pub mod tight;
 
 /// Declares the Kani proof wrappers and the native replay table of a module.
 #[macro_export]
@@ -27,14 +29,45 @@ macro_rules! harnesses {
     };
 }
 
-pub mod tight;
 pub mod selftest;
+pub mod c01;
+pub mod c02;
+pub mod c03;
+pub mod c04;
+pub mod c05;
+pub mod c06;
+pub mod c07;
+pub mod c08;
+pub mod c09;
+pub mod c10;
+pub mod c11;
+pub mod c12;
+pub mod c13;
+pub mod c14;
 pub mod c15;
+pub mod c16;
+pub mod c17;
 
 /// all natively replayable harnesses
 pub fn replay_table() -> Vec<(&'static str, fn())> {
     let mut v = Vec::new();
     v.extend_from_slice(selftest::REPLAY);
+    v.extend_from_slice(c01::REPLAY);
+    v.extend_from_slice(c02::REPLAY);
+    v.extend_from_slice(c03::REPLAY);
+    v.extend_from_slice(c04::REPLAY);
+    v.extend_from_slice(c05::REPLAY);
+    v.extend_from_slice(c06::REPLAY);
+    v.extend_from_slice(c07::REPLAY);
+    v.extend_from_slice(c08::REPLAY);
+    v.extend_from_slice(c09::REPLAY);
+    v.extend_from_slice(c10::REPLAY);
+    v.extend_from_slice(c11::REPLAY);
+    v.extend_from_slice(c12::REPLAY);
+    v.extend_from_slice(c13::REPLAY);
+    v.extend_from_slice(c14::REPLAY);
     v.extend_from_slice(c15::REPLAY);
+    v.extend_from_slice(c16::REPLAY);
+    v.extend_from_slice(c17::REPLAY);
     v
 }
